@@ -30,7 +30,7 @@ import (
 )
 
 type Case struct {
-	Type string `json:"type"` // scan | propagate
+	Type string `json:"type"` // scan | propagate | reads
 	// scan
 	Cfg scanstack.Cfg  `json:"cfg,omitempty"`
 	Evs []scanstack.Ev `json:"evs,omitempty"`
@@ -40,6 +40,12 @@ type Case struct {
 	Point   string `json:"point,omitempty"`
 	EC      int    `json:"ec,omitempty"`
 	Panic   bool   `json:"panic,omitempty"` // propagate: the read does not return an error, it panics
+	// reads (reads.go): one HandleEvents(S, E) call of Handler over a node that records what it is asked;
+	// the range holds Items; the node cannot serve block *Blk (nil: any block) for reads of kind Point
+	S     int64  `json:"s,omitempty"`
+	E     int64  `json:"e,omitempty"`
+	Items []Item `json:"items,omitempty"`
+	Blk   *int64 `json:"blk,omitempty"`
 }
 
 type Obs struct {
@@ -52,6 +58,11 @@ type Obs struct {
 	Err      bool   `json:"err,omitempty"`
 	Panicked bool   `json:"panicked,omitempty"`
 	Name     string `json:"errclass,omitempty"`
+	// reads: a read of the call failed; the range reads the node was asked for (bounds as given);
+	// reads with arguments the node cannot make sense of (unknown hash, foreign contract)
+	Fired bool       `json:"fired,omitempty"`
+	Asked [][2]int64 `json:"asked,omitempty"`
+	Bad   int        `json:"bad,omitempty"`
 }
 
 var wiring map[string]scanstack.Wiring
@@ -234,6 +245,9 @@ func propagate1(name string, f fault) bool {
 }
 
 func run(c Case) Obs {
+	if c.Type == "reads" {
+		return driveReads(c)
+	}
 	if c.Type == "propagate" {
 		var o Obs
 		o.Err, o.Panicked = propagate(c.Handler, fault{c.Point, c.EC, c.Panic})
@@ -431,6 +445,7 @@ func gen(r *vgen.Rng, tier string) []Case {
 			}
 		}
 	}
+	out = append(out, genReads(r, tier)...)
 	out = append(out, sweep()...)
 	n := 420
 	if tier == "thorough" {
@@ -544,6 +559,9 @@ func CoqOut(o scanstack.Out) string {
 }
 
 func coq(c Case, o Obs) string {
+	if c.Type == "reads" {
+		return coqReads(c, o)
+	}
 	if c.Type == "propagate" {
 		return "Propagate " + vgen.Bool(c.Point == "") + " " + vgen.Bool(o.Err)
 	}
@@ -563,6 +581,12 @@ func main() {
 		Coq:       coq,
 		ShardSize: 60,
 		Kind: func(c Case) string {
+			if c.Type == "reads" {
+				if c.Point == "" {
+					return "reads-" + c.Handler
+				}
+				return "reads-" + c.Handler + "@" + c.Point
+			}
 			if c.Type == "propagate" {
 				if c.Point == "" {
 					return "propagate-" + c.Handler
@@ -580,6 +604,9 @@ func main() {
 			return "scan-" + c.Cfg.Kind
 		},
 		NonTrivial: func(c Case, o Obs) bool {
+			if c.Type == "reads" {
+				return o.Fired || c.E > c.S || len(c.Items) > 0
+			}
 			if c.Type == "propagate" {
 				return c.Point != ""
 			}
@@ -590,6 +617,6 @@ func main() {
 			}
 			return false
 		},
-		Rule: "environment scripts (RPC failures, heads, per-handler results, store results, 0..4 crash points, inapplicable events) for the real EVM/Substrate/BTC listener stacks wired per the extracted app.go record, intervals 1..7, confirmations 0..12, 1..3 handlers, configured starts aligned/unaligned/large, stored cursor absent/behind/ahead, latest/fresh flags; a failing handler-0 event fails one of the real deposit handler's node reads (BTC GetBlockHash / GetBlockVerboseTx, EVM eth_getLogs under the real events.Listener, Substrate FetchEvents) with an error class drawn from the catalogue; a sweep of short scans in which the deposit handler at each node read, a later Bitcoin handler, the Bitcoin head read or block-store write fails once with each error class; every failing place also failing by a Go panic instead of an error (generated scripts and a sweep: deposit handler inside each node read, later handlers, head read, store write; listener death or survival observed); plus every repository event handler (EVM deposit/retryV1/retryV2/keygen/frost-keygen/refresh over the real events.Listener, Substrate fungible/retry/system-update, BTC fungible) x every node read it depends on x every error class of the catalogue and, for the range-level reads, a panic (plain, wrapped, *btcjson.RPCError codes, io.EOF, context, ethereum.NotFound, JSON-RPC error objects, HTTP/transport errors, texts); distinct = distinct input JSON; non-trivial = a scan in which at least one range was fully handled and StoreBlock was reached, or a failing read",
+		Rule: "environment scripts (RPC failures, heads, per-handler results, store results, 0..4 crash points, inapplicable events) for the real EVM/Substrate/BTC listener stacks wired per the extracted app.go record, intervals 1..7, confirmations 0..12, 1..3 handlers, configured starts aligned/unaligned/large, stored cursor absent/behind/ahead, latest/fresh flags; a failing handler-0 event fails one of the real deposit handler's node reads (BTC GetBlockHash / GetBlockVerboseTx, EVM eth_getLogs under the real events.Listener, Substrate FetchEvents) with an error class drawn from the catalogue; a sweep of short scans in which the deposit handler at each node read, a later Bitcoin handler, the Bitcoin head read or block-store write fails once with each error class; every failing place also failing by a Go panic instead of an error (generated scripts and a sweep: deposit handler inside each node read, later handlers, head read, store write; listener death or survival observed); plus every repository event handler (EVM deposit/retryV1/retryV2/keygen/frost-keygen/refresh over the real events.Listener, Substrate fungible/retry/system-update, BTC fungible) x every node read it depends on x every error class of the catalogue and, for the range-level reads, a panic (plain, wrapped, *btcjson.RPCError codes, io.EOF, context, ethereum.NotFound, JSON-RPC error objects, HTTP/transport errors, texts); plus one HandleEvents call of each of these handlers over a node that records the arguments of every read and serves ranges as the real clients do (reversed bounds: nothing, no error; unknown hashes: error): ranges of 1..7 blocks at small / aligned / large heights holding 0..4 events (deposits, logs, retry events with 0..2 deposits in the retried block, runtime-upgrade events, foreign events), without fault and with the node unable to serve block B for every B of the range; Substrate retry handler with 1..4 retry events, the retried block of EACH of them in turn unreadable at GetBlockHash / GetBlockEvents, a block named twice, events not final yet, head reads failing (judge: a failed read is reported, a call that reports success has asked for every block of its range); distinct = distinct input JSON; non-trivial = a scan in which at least one range was fully handled and StoreBlock was reached, or a failing read, or a range of several blocks / with events",
 	})
 }
